@@ -277,6 +277,13 @@ int main(int argc, char **argv) {
             t->spec.skip = atoi(tok[4]); t->spec.context = &t->ctx; t->spec.name = t->name;
             t->spec.run = generic_body; t->spec.filename = "scn.c"; t->spec.line = 2000 + tid;
             add_test_(suites[t->sid].suite, t->name, &t->spec);
+        } else if (!strcmp(tok[0], "F")) {
+            /* F <tid> <suite name>: actions for the suite-level fixtures of that suite when they run around one of its
+               sub-suites (the breadcrumb then names the suite): an entry that is not registered as a test */
+            int tid = atoi(tok[1]);
+            if (tid >= MAXT) return 98;
+            Tst *t = &tests[tid]; if (tid >= ntests) ntests = tid + 1;
+            t->name = strdup(tok[2]);
         } else if (!strcmp(tok[0], "a")) {
             Tst *t = &tests[atoi(tok[1])];
             int ph = tok[2][0] == 's' ? 0 : tok[2][0] == 'b' ? 1 : 2;
